@@ -252,10 +252,13 @@ def _big_stack():
         pass
 
 
-def run_cases(exe, lines, shards=NPROC, timeout=1200):
+def run_cases(exe, lines, shards=NPROC, timeout=None):
     """lines: list of '<id> <fn> …'; returns {id: result string}. Lines are sharded round-robin."""
     if not lines:
         return {}
+    if timeout is None:
+        # a batch that takes seconds on the unchanged tree must not wait 20 minutes per phase when the code under test hangs
+        timeout = int(os.environ.get("VERIF_SHARD_TIMEOUT", "1200"))
     shards = max(1, min(shards, len(lines)))
     parts = [[] for _ in range(shards)]
     for i, l in enumerate(lines):
